@@ -8,7 +8,7 @@
 From Coq Require Import List Bool Arith NArith Lia.
 Import ListNotations.
 From TarpcV Require Import Base Transport TimerWheel Server ServerMon ServerFuel ServerContract
-     ServerSim ServerSim2 ServerSim3 ServerSim4 ServerSim5 ServerSim6 ServerSim7.
+     ServerSim ServerSim2 ServerSim3 ServerSim4 ServerSim5 ServerSim6 ServerSim7 ServerProofsPA0 ServerProofsPA3.
 
 (* ================================================================== lists of handlers *)
 Definition is_permit_st (x : hstate) : bool := match x with HPermit _ => true | _ => false end.
@@ -247,3 +247,707 @@ Section Acc.
           -- eapply PWc_set_plain; eauto; rewrite ?Est; reflexivity.
   Qed.
 End Acc.
+
+(* ================================================================== what the read side leaves alone *)
+Section Frames.
+  Context {T C : Type}.
+  Variable tp : transport T response cmsg.
+  Variable ctl : T -> C -> T.
+  Variable tfuel : T -> nat.
+  Notation st := (@sstate T).
+
+  Definition RF (s s' : st) : Prop :=
+    s_dropped s' = s_dropped s /\ s_permits s' = s_permits s /\ s_respq s' = s_respq s
+    /\ s_handlers s' = s_handlers s /\ s_waiters s' = s_waiters s
+    /\ s_next_h s <= s_next_h s'
+    /\ (forall e, In e (s_inflight s') -> In e (s_inflight s) \/ s_next_h s <= e_h e)
+    /\ (forall h, In h (s_aborted s) -> In h (s_aborted s')).
+
+  Lemma RF_refl : forall s, RF s s.
+  Proof. intros s. unfold RF. repeat split; auto. Qed.
+  Lemma RF_trans : forall a b c, RF a b -> RF b c -> RF a c.
+  Proof.
+    intros a b c (A1 & A2 & A3 & A4 & A5 & A6 & A7 & A8) (B1 & B2 & B3 & B4 & B5 & B6 & B7 & B8).
+    unfold RF. repeat split; try congruence; try lia; auto.
+    intros e He. destruct (B7 e He) as [X|X]; [destruct (A7 e X); auto|right; lia].
+  Qed.
+  Lemma RF_eq : forall (s s' : st),
+    s_dropped s' = s_dropped s -> s_permits s' = s_permits s -> s_respq s' = s_respq s ->
+    s_handlers s' = s_handlers s -> s_waiters s' = s_waiters s -> s_next_h s' = s_next_h s ->
+    (forall e, In e (s_inflight s') -> In e (s_inflight s)) ->
+    (forall h, In h (s_aborted s) -> In h (s_aborted s')) -> RF s s'.
+  Proof. intros s s' E1 E2 E3 E4 E5 E6 E7 E8. unfold RF. repeat split; auto. lia. Qed.
+
+  Lemma in_drop_entry : forall id e l, In e (drop_entry id l) -> In e l /\ e_id e <> id.
+  Proof.
+    intros id e l H. unfold drop_entry in H. apply filter_In in H. destruct H as [A B]. split; [exact A|].
+    apply negb_true_iff in B. apply N.eqb_neq in B. exact B.
+  Qed.
+
+  Lemma RF_core : forall (s s' : st), same_core s s' -> s_respq s' = s_respq s -> s_permits s' = s_permits s ->
+    s_waiters s' = s_waiters s -> RF s s'.
+  Proof.
+    intros s s' (C1 & C2 & C3 & C4 & C5 & C6 & C7 & C8) Q P W. apply RF_eq; auto.
+    - intros e. rewrite C3. auto.
+    - intros h. rewrite C5. auto.
+  Qed.
+
+  Lemma RF_do_ready : forall (s : st) r s', do_ready tp s = (r, s') -> RF s s'.
+  Proof. intros s r s' H. destruct (do_ready_core tp _ _ _ H) as (A & _ & Q & P & W & _). apply RF_core; auto. Qed.
+  Lemma RF_do_flush : forall (s : st) r s', do_flush tp s = (r, s') -> RF s s'.
+  Proof. intros s r s' H. destruct (do_flush_core tp _ _ _ H) as (A & _ & Q & P & W & _). apply RF_core; auto. Qed.
+  Lemma RF_do_next : forall (s : st) r s', do_next tp s = (r, s') -> RF s s'.
+  Proof. intros s r s' H. destruct (do_next_core tp _ _ _ H) as (A & _ & Q & P & W & _). apply RF_core; auto. Qed.
+
+  Lemma RF_remove_request : forall id (s : st), RF s (snd (remove_request id s)).
+  Proof.
+    intros id s. destruct (remove_request_shape id s) as [(_ & -> & _)|(_ & _ & B1 & B2 & B3 & B4 & B5 & B6 & B7 & B8 & B9 & B10 & B11 & B12 & _)];
+      cbv zeta in *; [apply RF_refl|].
+    apply RF_eq; auto.
+    - intros e. rewrite B1. intros He. apply in_drop_entry in He. tauto.
+    - intros h. rewrite B5. auto.
+  Qed.
+  Lemma RF_cancel_request : forall id (s : st), RF s (cancel_request id s).
+  Proof.
+    intros id s. destruct (cancel_request_shape id s) as [(-> & _)|(e0 & _ & B1 & B2 & B3 & B4 & B5 & B6 & B7 & B8 & B9 & B10 & B11 & B12 & _)];
+      cbv zeta in *; [apply RF_refl|].
+    apply RF_eq; auto.
+    - intros e. rewrite B1. intros He. apply in_drop_entry in He. tauto.
+    - intros h. rewrite B3. intros Hh. right. exact Hh.
+  Qed.
+  Lemma RF_poll_expired : forall (s : st) r s', poll_expired s = (r, s') -> RF s s'.
+  Proof.
+    intros s r s' H. destruct (poll_expired_shape _ _ _ H) as (A1 & A2 & A3 & A4 & A5 & A6 & A7 & A8 & A9 & _ & _ & HH).
+    apply RF_eq; auto.
+    - destruct HH as [(_ & B & _)|(_ & id & w & _ & _ & _ & B & _)]; intros e; rewrite B; auto.
+      intros He. apply in_drop_entry in He. tauto.
+    - destruct HH as [(_ & _ & _ & B & _)|(_ & id & w & _ & _ & _ & _ & B)]; intros h; rewrite B; auto.
+      destruct (find_entry id s); [intros; right; assumption|auto].
+  Qed.
+  Lemma RF_start_request : forall id dl (s : st) h s', start_request id dl s = Some (h, s') -> RF s s'.
+  Proof.
+    intros id dl s h s' H.
+    destruct (start_request_shape _ _ _ _ _ H) as (_ & Hh & B1 & _ & B3 & B4 & B5 & _ & _ & B8 & _ & B10 & B11 & B12 & _).
+    unfold RF. rewrite B3, B4, B5, B8, B10, B11, B12. repeat split; auto.
+    intros e. rewrite B1, in_app_iff. intros [He|[<-|[]]]; [left; exact He|right]. cbn. lia.
+  Qed.
+  Lemma RF_fields : forall (s s' : st),
+    s_dropped s' = s_dropped s -> s_permits s' = s_permits s -> s_respq s' = s_respq s ->
+    s_handlers s' = s_handlers s -> s_waiters s' = s_waiters s -> s_next_h s' = s_next_h s ->
+    s_inflight s' = s_inflight s -> s_aborted s' = s_aborted s -> RF s s'.
+  Proof. intros s s' E1 E2 E3 E4 E5 E6 E7 E8. apply RF_eq; auto; intros x; rewrite ?E7, ?E8; auto. Qed.
+
+  Lemma RF_base : forall f (s : st) r s', base_poll_next tp f s = (r, s') -> RF s s'.
+  Proof.
+    induction f as [|f IH]; intros s r s' H; cbn [base_poll_next] in H; [injection H as _ <-; apply RF_refl|].
+    set (cs := match s_cancels s with
+               | id :: r0 => (RSReady, snd (remove_request id (set_cancels s r0)))
+               | [] => (RSClosed, s) end) in H.
+    assert (Hc : RF s (snd cs)).
+    { subst cs. destruct (s_cancels s) as [|id r0]; cbn [snd]; [apply RF_refl|].
+      eapply RF_trans; [|apply RF_remove_request]. apply RF_fields; reflexivity. }
+    destruct cs as [cst s1]. cbn [snd] in Hc.
+    destruct (poll_expired s1) as [est s2] eqn:EE. pose proof (RF_poll_expired _ _ _ EE) as He.
+    assert (R02 : RF s s2) by (eapply RF_trans; eassumption).
+    assert (Hfin : forall rst sx, RF s sx ->
+              match combine (combine cst est) rst with
+              | RSReady => base_poll_next tp f sx
+              | RSClosed => (PEnd, sx)
+              | RSPending => (PPending, sx)
+              end = (r, s') -> RF s s').
+    { intros rst sx Rx HH. destruct (combine (combine cst est) rst).
+      - eapply RF_trans; [exact Rx|exact (IH _ _ _ HH)].
+      - injection HH as _ <-. exact Rx.
+      - injection HH as _ <-. exact Rx. }
+    destruct (s_fused s2).
+    - exact (Hfin RSClosed s2 R02 H).
+    - destruct (do_next tp s2) as [rr s3] eqn:EN. pose proof (RF_do_next _ _ _ EN) as Rn.
+      assert (R03 : RF s s3) by (eapply RF_trans; eassumption).
+      destruct rr as [m| | |].
+      + destruct m as [id dl tr body|id tr].
+        * destruct (start_request id dl s3) as [[h s4]|] eqn:ES.
+          -- injection H as _ <-. eapply RF_trans; [exact R03|exact (RF_start_request _ _ _ _ _ ES)].
+          -- eapply RF_trans; [exact R03|exact (IH _ _ _ H)].
+        * apply (Hfin RSReady (cancel_request id s3)); [|exact H].
+          eapply RF_trans; [exact R03|apply RF_cancel_request].
+      + injection H as _ <-. exact R03.
+      + apply (Hfin RSClosed (set_fused s3 true)); [|exact H].
+        eapply RF_trans; [exact R03|apply RF_fields; reflexivity].
+      + exact (Hfin RSPending s3 R03 H).
+  Qed.
+
+  Lemma RF_start_send : forall m (s : st) e s', base_start_send tp m s = (e, s') -> RF s s'.
+  Proof.
+    intros m s e s' H.
+    destruct (base_start_send_shape tp _ _ _ _ H) as [(_ & _ & ->)|(en & r & _ & _ & B1 & B2 & B3 & B4 & B5 & B6 & B7 & B8 & B9 & B10 & B11 & B12 & _)];
+      [apply RF_refl|].
+    apply RF_eq; auto.
+    - intros x. rewrite B1. intros He. apply in_drop_entry in He. tauto.
+    - intros h. rewrite B5. auto.
+  Qed.
+
+  Lemma RF_maxreq : forall f limit (s : st) r s', maxreq_poll_next tp f limit s = (r, s') -> RF s s'.
+  Proof.
+    induction f as [|f IH]; intros limit s r s' H; cbn [maxreq_poll_next] in H; [injection H as _ <-; apply RF_refl|].
+    destruct (limit <=? length (s_inflight s)); [|exact (RF_base _ _ _ _ H)].
+    destruct (do_ready tp s) as [x s1] eqn:ER. pose proof (RF_do_ready _ _ _ ER) as R1.
+    destruct x; try (injection H as _ <-; exact R1).
+    destruct (base_poll_next tp (S f) s1) as [y s2] eqn:EB. pose proof (RF_base _ _ _ _ EB) as R2.
+    assert (R02 : RF s s2) by (eapply RF_trans; eassumption).
+    destruct y as [q| | | |]; try (injection H as _ <-; exact R02).
+    destruct (base_start_send tp (mkresp (q_id q) BThrottle) s2) as [e s3] eqn:ESS.
+    pose proof (RF_start_send _ _ _ _ ESS) as R3.
+    assert (R03 : RF s s3) by (eapply RF_trans; eassumption).
+    destruct e; [injection H as _ <-; exact R03|].
+    eapply RF_trans; [exact R03|exact (IH _ _ _ _ H)].
+  Qed.
+
+  Lemma RF_pump_read : forall c f (s : st) r s', pump_read tp c f s = (r, s') -> RF s s'.
+  Proof. intros c f s r s' H. unfold pump_read in H. destruct (cfg_limit c); [eapply RF_maxreq|eapply RF_base]; eauto. Qed.
+
+  Lemma RF_ensure : forall (s : st) w s', ensure_writeable tp s = (w, s') -> RF s s'.
+  Proof.
+    intros s w s' H. unfold ensure_writeable in H.
+    destruct (do_ready tp s) as [r s1] eqn:E1. pose proof (RF_do_ready _ _ _ E1) as R1.
+    destruct r; try (injection H as _ <-; exact R1).
+    destruct (do_flush tp s1) as [f s2] eqn:E2. pose proof (RF_do_flush _ _ _ E2) as R2.
+    destruct f; try (injection H as _ <-; eapply RF_trans; eassumption).
+    destruct (do_ready tp s2) as [r2 s3] eqn:E3. pose proof (RF_do_ready _ _ _ E3) as R3.
+    destruct r2; injection H as _ <-; (eapply RF_trans; [exact R1|eapply RF_trans; eassumption]).
+  Qed.
+
+  (* ---- the accounting through a poll ------------------------------------------------------ *)
+  Lemma PAcc_RF : forall buf (s s' : st), PAcc buf s -> RF s s' -> PAcc buf s'.
+  Proof. intros buf s s' H (A1 & A2 & A3 & A4 & A5 & _). eapply PAcc_frame; eauto. Qed.
+
+  Lemma pump_write_acc : forall buf rc (s : st) w s', PAcc buf s -> pump_write tp rc s = (w, s') -> PAcc buf s'.
+  Proof.
+    intros buf rc s w s' HP H. unfold pump_write, poll_next_response in H.
+    destruct (ensure_writeable tp s) as [x s1] eqn:EW. pose proof (PAcc_RF _ _ _ HP (RF_ensure _ _ _ EW)) as HP1.
+    assert (Hfl : forall x0, (let '(f, s2) := do_flush tp s1 in
+              match f with
+              | TErr => (PErr AFlush, s2)
+              | TPending => (PPending, s2)
+              | TOk => match x0 : pres response with
+                       | PEnd => (PEnd, s2)
+                       | _ => if rc && Nat.eqb (length (s_inflight s2)) 0 then (PEnd, s2) else (PPending, s2)
+                       end
+              end) = (w, s') -> PAcc buf s').
+    { intros x0 HH. destruct (do_flush tp s1) as [f s2] eqn:EF. pose proof (PAcc_RF _ _ _ HP1 (RF_do_flush _ _ _ EF)) as HP2.
+      destruct f; [destruct x0; try destruct (rc && _)| |]; injection HH as _ <-; exact HP2. }
+    destruct x as [| |a].
+    - destruct (s_respq s1) as [|m q] eqn:EQ; [exact (Hfl PPending H)|].
+      destruct (base_start_send tp m (add_permit (set_respq s1 q))) as [e s2] eqn:ES.
+      assert (HPa : PAcc buf (add_permit (set_respq s1 q))).
+      { destruct HP1 as (HS & HW).
+        destruct (add_permit_acc (set_respq s1 q)) as (HWp & HSp); [exact HW|].
+        destruct (add_permit_shape (set_respq s1 q)) as (_ & _ & _ & _ & _ & _ & _ & _ & P9 & _). cbv zeta in P9.
+        split; [|exact HWp]. rewrite P9. sproj. intros Hd. rewrite HSp. specialize (HS Hd).
+        unfold PSum, PSumc in *. sproj. rewrite EQ in HS. cbn [length] in HS. lia. }
+      pose proof (PAcc_RF _ _ _ HPa (RF_start_send _ _ _ _ ES)) as HP2.
+      destruct e; injection H as _ <-; exact HP2.
+    - exact (Hfl PPending H).
+    - injection H as _ <-. exact HP1.
+  Qed.
+
+  Lemma requests_acc : forall buf c f (s : st) r s', PAcc buf s -> requests_poll_next tp c f s = (r, s') -> PAcc buf s'.
+  Proof.
+    intros buf c f; induction f as [|f IH]; intros s r s' HP H; cbn [requests_poll_next] in H; [injection H as _ <-; exact HP|].
+    destruct (pump_read tp c (S f) s) as [rd s1] eqn:ER. pose proof (PAcc_RF _ _ _ HP (RF_pump_read _ _ _ _ _ ER)) as HP1.
+    destruct rd as [q| |a| |]; try (injection H as _ <-; exact HP1).
+    all: match type of H with context [pump_write tp ?b ?sx] =>
+           destruct (pump_write tp b sx) as [wr s2] eqn:EW;
+           pose proof (pump_write_acc _ _ _ _ _ HP1 EW) as HP2 end.
+    - destruct wr as [u| |a| |]; injection H as _ <-; exact HP2.
+    - destruct wr as [u| |a| |]; try (injection H as _ <-; exact HP2). exact (IH _ _ _ HP2 H).
+    - destruct wr as [u| |a| |]; try (injection H as _ <-; exact HP2). exact (IH _ _ _ HP2 H).
+  Qed.
+
+  Lemma poll_requests_acc : forall buf c (s : st), PAcc buf s -> PAcc buf (fst (poll_requests tp tfuel c s)).
+  Proof.
+    intros buf c s HP. unfold poll_requests. destruct (s_dropped s); [exact HP|].
+    destruct (requests_poll_next tp c (poll_fuel tfuel s) (set_log s [])) as [r s1] eqn:ER.
+    assert (HP0 : PAcc buf (set_log s [])) by (eapply PAcc_frame; [exact HP|reflexivity..]).
+    pose proof (requests_acc _ _ _ _ _ _ HP0 ER) as HP1.
+    destruct r; cbn [fst]; try exact HP1.
+    destruct HP1 as (HS & (A & B & D)). unfold PAcc, PSum, PW, PSumc, PWc in *. sproj. split.
+    - intros Hd. rewrite nperm_app. cbn. specialize (HS Hd). lia.
+    - split; [|split; assumption]. intros k. rewrite (A k). symmetry. apply waitk_app. reflexivity.
+  Qed.
+
+  Lemma drop_handler_acc : forall buf k (s : st), PAcc buf s -> PAcc buf (fst (drop_handler k s)).
+  Proof.
+    intros buf k s (HS & HW). assert (HP : PAcc buf s) by (split; assumption). unfold drop_handler.
+    destruct (nth_error (s_handlers s) k) as [hr|] eqn:Hk; [|exact HP].
+    pose proof (nperm_set_hst k) as NP.
+    assert (Hg : forall (sx : st), PAcc buf sx -> PAcc buf (guard_cancel (h_id hr) sx)).
+    { intros sx X. unfold guard_cancel. destruct (s_dropped sx); [exact X|]. eapply PAcc_frame; [exact X|reflexivity..]. }
+    destruct (h_st hr) eqn:Est; try exact HP; cbn [fst]; apply Hg.
+    - unfold PAcc, PSum, PW, PSumc in *. sproj. split.
+      + intros Hd. specialize (NP HGone _ _ Hk). rewrite Est in NP. cbn in NP. specialize (HS Hd). lia.
+      + eapply PWc_set_plain; eauto; rewrite ?Est; reflexivity.
+    - unfold PAcc, PSum, PW, PSumc in *. sproj. split.
+      + intros Hd. specialize (NP HGone _ _ Hk). rewrite Est in NP. cbn in NP. specialize (HS Hd). lia.
+      + eapply PWc_set_unwait; eauto; rewrite ?Est; reflexivity.
+    - destruct (add_permit_acc s HW) as (HWp & HSp).
+      destruct (add_permit_waitst s k hr Hk) as (hr' & Hk' & Est'); [rewrite Est; reflexivity|].
+      destruct (add_permit_shape s) as (_ & _ & _ & _ & _ & _ & _ & _ & P9 & _). cbv zeta in P9.
+      unfold PAcc, PSum, PW, PSumc in *. sproj. split.
+      + rewrite P9. intros Hd. specialize (NP HGone _ _ Hk'). rewrite Est', Est in NP. cbn in NP. specialize (HS Hd). lia.
+      + eapply PWc_set_plain; eauto; rewrite ?Est', ?Est; reflexivity.
+  Qed.
+
+  Lemma drop_yielded_acc : forall buf k (s : st), PAcc buf s -> PAcc buf (fst (drop_yielded k s)).
+  Proof.
+    intros buf k s (HS & HW). assert (HP : PAcc buf s) by (split; assumption). unfold drop_yielded.
+    destruct (nth_error (s_handlers s) k) as [[h i x]|] eqn:Hk; [|exact HP].
+    destruct x; try exact HP. cbn [fst]. unfold guard_cancel. sproj.
+    pose proof (nperm_set_hst k HGone _ _ Hk) as NP. cbn in NP.
+    assert (X : PAcc buf (set_handlers s (set_hst k HGone (s_handlers s)))).
+    { unfold PAcc, PSum, PW, PSumc in *. sproj. split; [intros Hd; specialize (HS Hd); lia|].
+      eapply PWc_set_plain; eauto. }
+    destruct (s_dropped s); [exact X|eapply PAcc_frame; [exact X|reflexivity..]].
+  Qed.
+
+  Lemma PAcc_step : forall c (s : st) p, PAcc (cfg_buf c) s -> PAcc (cfg_buf c) (fst (step tp ctl tfuel c s p)).
+  Proof.
+    intros c s p HP. unfold step. destruct p as [|x|k hs|k|k| |dt].
+    - pose proof (poll_requests_acc _ c s HP) as X. destruct (poll_requests tp tfuel c s). exact X.
+    - cbn [fst]. eapply PAcc_frame; [exact HP|reflexivity..].
+    - pose proof (execute_poll_acc _ k hs s HP) as X. destruct (execute_poll k hs s). exact X.
+    - pose proof (drop_handler_acc _ k s HP) as X. destruct (drop_handler k s). exact X.
+    - pose proof (drop_yielded_acc _ k s HP) as X. destruct (drop_yielded k s). exact X.
+    - cbn [fst]. unfold drop_channel. destruct (s_dropped s) eqn:ED; [exact HP|].
+      destruct HP as (HS & HW). split; [sproj; discriminate|exact HW].
+    - cbn [fst]. eapply PAcc_frame; [exact HP|reflexivity..].
+  Qed.
+
+  Lemma PAcc_init : forall c (t0 : T), PAcc (cfg_buf c) (init c t0).
+  Proof.
+    intros c t0. unfold PAcc, PSum, PW, PSumc, PWc, init. sproj. split; [intros _; cbn; lia|].
+    split; [|split; [constructor|intros X; congruence]].
+    intros k. split; [intros []|]. intros (hr & A & _). destruct k; discriminate.
+  Qed.
+End Frames.
+
+(* ================================================================== buffered responses of tracked requests *)
+Section Queue.
+  Context {T C : Type}.
+  Variable tp : transport T response cmsg.
+  Variable ctl : T -> C -> T.
+  Variable tfuel : T -> nat.
+  Notation st := (@sstate T).
+
+  Definition qids (s : st) : list N := map resp_id (s_respq s).
+
+  Definition QPm (s : st) : Prop :=
+    forall k hr e, nth_error (s_handlers s) k = Some hr -> h_st hr = HDone ->
+      In e (s_inflight s) -> e_h e = h_h hr ->
+      In (h_h hr) (s_aborted s) \/ s_dropped s = true \/ In (e_id e) (qids s).
+
+  Definition QL (n0 : nat) (s : st) : Prop :=
+    n0 <= s_next_h s /\ (forall hr, In hr (s_handlers s) -> h_h hr < n0) /\ QPm s.
+
+  Lemma QL_RF : forall n0 (s s' : st), QL n0 s -> RF s s' -> QL n0 s'.
+  Proof.
+    intros n0 s s' (L & F & Q) (A1 & A2 & A3 & A4 & A5 & A6 & A7 & A8). unfold QL, QPm, qids in *.
+    rewrite A1, A3, A4. split; [lia|split; [exact F|]].
+    intros k hr e Hk Hd He Hh. destruct (A7 e He) as [X|X].
+    - destruct (Q k hr e Hk Hd X Hh) as [Y|[Y|Y]]; auto.
+    - exfalso. apply nth_error_In in Hk. specialize (F hr Hk). lia.
+  Qed.
+
+  Lemma find_entry_none_in : forall id (s : st) e, find_entry id s = None -> In e (s_inflight s) -> e_id e <> id.
+  Proof.
+    intros id s e H He Heq. unfold find_entry in H.
+    pose proof (find_none _ _ H e He) as X. cbn in X. rewrite Heq, N.eqb_refl in X. discriminate.
+  Qed.
+
+  (* a response leaves the queue *)
+  Lemma QL_pop : forall n0 (s1 : st) m q e s2,
+    QL n0 s1 -> s_respq s1 = m :: q ->
+    base_start_send tp m (add_permit (set_respq s1 q)) = (e, s2) -> QL n0 s2.
+  Proof.
+    intros n0 s1 m q e s2 (L & F & Q) EQ ES.
+    destruct (add_permit_shape (set_respq s1 q)) as (P1 & P2 & P3 & P4 & P5 & P6 & P7 & P8 & P9 & P10 & P11 & P12 & P13).
+    cbv zeta in *. sproj. set (sa := add_permit (set_respq s1 q)) in *.
+    assert (Hsh : s_next_h s2 = s_next_h sa /\ s_handlers s2 = s_handlers sa /\ s_aborted s2 = s_aborted sa
+                  /\ s_dropped s2 = s_dropped sa /\ s_respq s2 = s_respq sa
+                  /\ forall x, In x (s_inflight s2) -> In x (s_inflight sa) /\ e_id x <> resp_id m).
+    { destruct (base_start_send_shape tp _ _ _ _ ES) as [(Hn & _ & ->)|(en & r & _ & _ & B1 & B2 & B3 & B4 & B5 & B6 & B7 & B8 & B9 & B10 & _)].
+      - repeat split; auto. eapply find_entry_none_in; eauto.
+      - repeat split; auto; rewrite B1 in H; apply in_drop_entry in H; tauto. }
+    destruct Hsh as (S1 & S2 & S3 & S4 & S5 & S6).
+    unfold QL, QPm, qids. rewrite S1, S2, S3, S4, S5, P3, P6, P9, P11. split; [exact L|split].
+    - intros hr' Hin. assert (X : In (h_h hr') (map h_h (s_handlers sa))) by (apply in_map; exact Hin).
+      rewrite P1 in X. apply in_map_iff in X. destruct X as (hr & E & Hr). rewrite <- E. exact (F hr Hr).
+    - intros k hr' x Hk Hd Hx Hh. destruct (P2 k hr' Hk) as (hr & Hk0 & Ehh & _ & Est).
+      assert (Hd0 : h_st hr = HDone).
+      { destruct Est as [X|(b & _ & X)]; [congruence|]. rewrite X in Hd. discriminate. }
+      destruct (S6 x Hx) as (Hx0 & Nid). rewrite P4 in Hx0.
+      destruct (Q k hr x Hk0 Hd0 Hx0) as [Y|[Y|Y]]; [congruence|left; congruence|right; left; exact Y|].
+      right; right. unfold qids in Y. rewrite EQ in Y. cbn [map In] in Y. destruct Y as [Y|Y]; [congruence|exact Y].
+  Qed.
+
+  Lemma QL_pump_write : forall n0 rc (s : st) w s', QL n0 s -> pump_write tp rc s = (w, s') -> QL n0 s'.
+  Proof.
+    intros n0 rc s w s' HQ H. unfold pump_write, poll_next_response in H.
+    destruct (ensure_writeable tp s) as [x s1] eqn:EW. pose proof (QL_RF _ _ _ HQ (RF_ensure tp _ _ _ EW)) as HQ1.
+    assert (Hfl : forall x0, (let '(f, s2) := do_flush tp s1 in
+              match f with
+              | TErr => (PErr AFlush, s2)
+              | TPending => (PPending, s2)
+              | TOk => match x0 : pres response with
+                       | PEnd => (PEnd, s2)
+                       | _ => if rc && Nat.eqb (length (s_inflight s2)) 0 then (PEnd, s2) else (PPending, s2)
+                       end
+              end) = (w, s') -> QL n0 s').
+    { intros x0 HH. destruct (do_flush tp s1) as [f s2] eqn:EF. pose proof (QL_RF _ _ _ HQ1 (RF_do_flush tp _ _ _ EF)) as HQ2.
+      destruct f; [destruct x0; try destruct (rc && _)| |]; injection HH as _ <-; exact HQ2. }
+    destruct x as [| |a].
+    - destruct (s_respq s1) as [|m q] eqn:EQ; [exact (Hfl PPending H)|].
+      destruct (base_start_send tp m (add_permit (set_respq s1 q))) as [e s2] eqn:ES.
+      pose proof (QL_pop _ _ _ _ _ _ HQ1 EQ ES) as HQ2.
+      destruct e; injection H as _ <-; exact HQ2.
+    - exact (Hfl PPending H).
+    - injection H as _ <-. exact HQ1.
+  Qed.
+
+  Lemma QL_requests : forall n0 c f (s : st) r s', QL n0 s -> requests_poll_next tp c f s = (r, s') -> QL n0 s'.
+  Proof.
+    intros n0 c f; induction f as [|f IH]; intros s r s' HQ H; cbn [requests_poll_next] in H; [injection H as _ <-; exact HQ|].
+    destruct (pump_read tp c (S f) s) as [rd s1] eqn:ER. pose proof (QL_RF _ _ _ HQ (RF_pump_read tp _ _ _ _ _ ER)) as HQ1.
+    destruct rd as [q| |a| |]; try (injection H as _ <-; exact HQ1).
+    all: match type of H with context [pump_write tp ?b ?sx] =>
+           destruct (pump_write tp b sx) as [wr s2] eqn:EW;
+           pose proof (QL_pump_write _ _ _ _ _ HQ1 EW) as HQ2 end.
+    - destruct wr as [u| |a| |]; injection H as _ <-; exact HQ2.
+    - destruct wr as [u| |a| |]; try (injection H as _ <-; exact HQ2). exact (IH _ _ _ HQ2 H).
+    - destruct wr as [u| |a| |]; try (injection H as _ <-; exact HQ2). exact (IH _ _ _ HQ2 H).
+  Qed.
+
+  Lemma QPm_poll_requests : forall c (s : st),
+    QPm s -> (forall hr, In hr (s_handlers s) -> h_h hr < s_next_h s) -> QPm (fst (poll_requests tp tfuel c s)).
+  Proof.
+    intros c s HQ HF. unfold poll_requests. destruct (s_dropped s); [exact HQ|].
+    destruct (requests_poll_next tp c (poll_fuel tfuel s) (set_log s [])) as [r s1] eqn:ER.
+    assert (HQ0 : QL (s_next_h s) (set_log s [])) by (split; [sproj; lia|split; [exact HF|exact HQ]]).
+    destruct (QL_requests _ _ _ _ _ _ HQ0 ER) as (_ & _ & HQ1).
+    destruct r; cbn [fst]; try exact HQ1.
+    intros k hr e Hk Hd He Hh. unfold qids in *. sproj.
+    destruct (Nat.lt_ge_cases k (length (s_handlers s1))) as [L|L].
+    - rewrite nth_error_app1 in Hk by exact L. exact (HQ1 k hr e Hk Hd He Hh).
+    - rewrite nth_error_app2 in Hk by exact L. destruct (k - length (s_handlers s1)) as [|n]; cbn in Hk.
+      + inversion Hk; subst hr. discriminate.
+      + destruct n; discriminate.
+  Qed.
+
+  (* ---- handler ops ------------------------------------------------------------------------- *)
+  Lemma QPm_hshape : forall (s s1 : st) k hr st',
+    QPm s -> nth_error (s_handlers s) k = Some hr -> hshape k hr st' s s1 ->
+    s_inflight s1 = s_inflight s -> (forall h, In h (s_aborted s) -> In h (s_aborted s1)) ->
+    (s_dropped s = true -> s_dropped s1 = true) -> (forall id, In id (qids s) -> In id (qids s1)) ->
+    (st' = HDone -> h_st hr = HDone \/ In (h_h hr) (s_aborted s1) \/ s_dropped s1 = true
+                    \/ forall e, In e (s_inflight s) -> e_h e = h_h hr -> In (e_id e) (qids s1)) ->
+    QPm s1.
+  Proof.
+    intros s s1 k hr st' HQ Hk (Hm & Hsh) Hi Ha Hd Hq Hwhy j hr' e Hj Hdn He Hh. rewrite Hi in He.
+    destruct (nth_map_hh _ _ j hr' Hm Hj) as (hr0 & Hj0 & Ehh).
+    assert (Old : h_st hr0 = HDone -> In (h_h hr') (s_aborted s1) \/ s_dropped s1 = true \/ In (e_id e) (qids s1)).
+    { intros X. destruct (HQ j hr0 e Hj0 X He) as [Y|[Y|Y]]; [congruence|left; rewrite <- Ehh; auto|auto|auto]. }
+    destruct (Hsh j hr' Hj) as [(-> & _ & Hst)|(Hne & hr0' & Hj0' & _ & Hst)].
+    - rewrite Hk in Hj0. inversion Hj0; subst hr0.
+      destruct (Hwhy ltac:(congruence)) as [X|[X|[X|X]]]; [exact (Old X)|left; congruence|auto|].
+      right; right. apply X; [exact He|congruence].
+    - rewrite Hj0 in Hj0'. inversion Hj0'; subst hr0'. apply Old.
+      destruct Hst as [X|(b & _ & X)]; [congruence|]. rewrite X in Hdn. discriminate.
+  Qed.
+
+  (* why an execute() future that was still running has returned *)
+  Lemma execute_done_why : forall k hs (s s1 : st) body hr hr1,
+    execute_poll k hs s = (s1, body) -> nth_error (s_handlers s) k = Some hr -> h_st hr <> HDone ->
+    nth_error (s_handlers s1) k = Some hr1 -> h_st hr1 = HDone ->
+    In (h_h hr) (s_aborted s) \/ s_dropped s = true \/ exists b, s_respq s1 = s_respq s ++ [mkresp (h_id hr) b].
+  Proof.
+    intros k hs s s1 body hr hr1 H Hk Hnd Hk1 Hd1. unfold execute_poll in H. rewrite Hk in H.
+    destruct (existsb (Nat.eqb (h_h hr)) (s_aborted s)) eqn:EA.
+    { left. apply existsb_exists in EA. destruct EA as (h & Hin & E). apply Nat.eqb_eq in E. subst h. exact Hin. }
+    destruct (s_dropped s) eqn:ED; [right; left; reflexivity|].
+    right; right.
+    assert (Contra : forall x, x <> HDone -> nth_error (set_hst k x (s_handlers s)) k = Some hr1 -> False).
+    { intros x Nx Hx. rewrite (set_hst_same _ x _ _ Hk) in Hx. inversion Hx; subst hr1. cbn in Hd1. congruence. }
+    destruct (h_st hr) eqn:Est; try congruence.
+    - destruct hs; [|destruct (s_permits s)..]; injection H as <- <-; sproj;
+        try (exfalso; eapply Contra; [|exact Hk1]; discriminate); eexists; reflexivity.
+    - destruct hs; [|destruct (s_permits s)..]; injection H as <- <-; sproj;
+        try (exfalso; eapply Contra; [|exact Hk1]; discriminate); eexists; reflexivity.
+    - injection H as <- <-. sproj. eexists; reflexivity.
+  Qed.
+
+  Lemma QPm_execute_poll : forall o k hs (s : st),
+    InvU o s -> QPm s -> QPm (fst (execute_poll k hs s)).
+  Proof.
+    intros o k hs s HI HQ. destruct (execute_poll k hs s) as [s1 body] eqn:EE. cbn [fst].
+    destruct (nth_error (s_handlers s) k) as [hr|] eqn:Hk.
+    2: { unfold execute_poll in EE. rewrite Hk in EE. injection EE as <- _. exact HQ. }
+    destruct (execute_poll_summary k hs s s1 body hr EE Hk) as [(-> & _)|Hch]; [exact HQ|].
+    destruct Hch as (st' & push & Hun & _ & Hsh & Hinf & Hab & Hcan & Hdr & Hq & Hpush).
+    apply (QPm_hshape s s1 k hr st' HQ Hk Hsh Hinf).
+    - intros h. rewrite Hab. auto.
+    - rewrite Hdr. auto.
+    - intros id. unfold qids. rewrite Hq, map_app, in_app_iff. auto.
+    - intros ->. right.
+      assert (Hk1 : exists hr1, nth_error (s_handlers s1) k = Some hr1 /\ h_st hr1 = HDone).
+      { destruct Hsh as (Hm & Hsh). assert (L : k < length (s_handlers s1)).
+        { rewrite <- (map_length h_h), Hm, map_length. apply nth_error_Some. congruence. }
+        apply nth_error_Some in L. destruct (nth_error (s_handlers s1) k) as [hr1|] eqn:E1; [|congruence].
+        exists hr1. split; [reflexivity|]. destruct (Hsh k hr1 E1) as [(_ & _ & X)|(N & _)]; [exact X|congruence]. }
+      destruct Hk1 as (hr1 & Hk1 & Hd1).
+      assert (Hnd : h_st hr <> HDone) by (intros X; rewrite X in Hun; exact Hun).
+      destruct (execute_done_why k hs s s1 body hr hr1 EE Hk Hnd Hk1 Hd1) as [X|[X|(b & X)]].
+      + left. rewrite Hab. exact X.
+      + right; left. rewrite Hdr. exact X.
+      + right; right. intros e He Hh. unfold qids. rewrite X, map_app, in_app_iff. right. cbn. left.
+        (* the entry of a handler bears the handler's id *)
+        destruct (u_owner _ _ HI e He) as [(k' & hr' & oi' & A' & B' & C' & D' & _)|(_ & Hno)].
+        * assert (k' = k) by (eapply NoDup_map_nth_inj; [exact (u_hnodup _ _ HI)|exact A'|exact Hk|congruence]).
+          subst k'. rewrite Hk in A'. inversion A'; subst hr'.
+          destruct (u_hand _ _ HI k hr oi' Hk B') as (E & _). congruence.
+        * exfalso. apply (Hno hr); [eapply nth_error_In; eauto|symmetry; exact Hh].
+  Qed.
+
+  Lemma QPm_frame : forall (s s' : st),
+    QPm s -> s_handlers s' = s_handlers s -> s_inflight s' = s_inflight s -> s_aborted s' = s_aborted s ->
+    s_dropped s' = s_dropped s -> s_respq s' = s_respq s -> QPm s'.
+  Proof. intros s s' H E1 E2 E3 E4 E5. unfold QPm, qids in *. rewrite E1, E2, E3, E4, E5. exact H. Qed.
+
+  Lemma QPm_drop_handler : forall k (s : st), QPm s -> QPm (fst (drop_handler k s)).
+  Proof.
+    intros k s HQ. unfold drop_handler.
+    destruct (nth_error (s_handlers s) k) as [hr|] eqn:Hk; [|exact HQ].
+    destruct (add_permit_shape s) as (P1 & P2 & P3 & P4 & P5 & P6 & P7 & P8 & P9 & P10 & P11 & P12 & P13).
+    cbv zeta in *.
+    assert (Hg : forall (sx : st), QPm sx -> QPm (guard_cancel (h_id hr) sx)).
+    { intros sx X. unfold guard_cancel. destruct (s_dropped sx); [exact X|]. eapply QPm_frame; [exact X|reflexivity..]. }
+    assert (Leaf : forall (sx s0 : st), (sx = s \/ sx = add_permit s) ->
+              s_handlers s0 = set_hst k HGone (s_handlers sx) -> s_inflight s0 = s_inflight s ->
+              s_aborted s0 = s_aborted s -> s_dropped s0 = s_dropped s -> s_respq s0 = s_respq s -> QPm s0).
+    { intros sx s0 Hsx Hh Hi Ha Hd Hq.
+      assert (Hsh : hshape k hr HGone s s0).
+      { destruct Hsx as [->| ->]; [eapply (hshape_set s s); eauto; apply hrel_refl|eapply (hshape_set s (add_permit s)); eauto]. }
+      apply (QPm_hshape s s0 k hr HGone HQ Hk Hsh Hi).
+      - intros h. rewrite Ha. auto.
+      - rewrite Hd. auto.
+      - intros id. unfold qids. rewrite Hq. auto.
+      - discriminate. }
+    destruct (h_st hr); try exact HQ; cbn [fst]; apply Hg.
+    - apply (Leaf s); auto.
+    - apply (Leaf s); auto.
+    - apply (Leaf (add_permit s)); auto.
+  Qed.
+
+  Lemma QPm_drop_yielded : forall k (s : st), QPm s -> QPm (fst (drop_yielded k s)).
+  Proof.
+    intros k s HQ. unfold drop_yielded.
+    destruct (nth_error (s_handlers s) k) as [[h i x]|] eqn:Hk; [|exact HQ].
+    destruct x; try exact HQ. cbn [fst].
+    assert (X : QPm (set_handlers s (set_hst k HGone (s_handlers s)))).
+    { assert (Hsh : hshape k {| h_h := h; h_id := i; h_st := HYielded |} HGone s (set_handlers s (set_hst k HGone (s_handlers s)))).
+      { eapply (hshape_set s s); eauto. apply hrel_refl. }
+      apply (QPm_hshape _ _ _ _ _ HQ Hk Hsh); auto. discriminate. }
+    unfold guard_cancel. sproj. destruct (s_dropped s); [exact X|eapply QPm_frame; [exact X|reflexivity..]].
+  Qed.
+
+  Lemma QPm_step : forall o c (s : st) p,
+    InvU o s -> QPm s -> QPm (fst (step tp ctl tfuel c s p)).
+  Proof.
+    intros o c s p HI HQ. unfold step. destruct p as [|x|k hs|k|k| |dt].
+    - pose proof (QPm_poll_requests c s HQ) as X. destruct (poll_requests tp tfuel c s). cbn [fst] in *. apply X.
+      intros hr Hin. apply In_nth_error in Hin. destruct Hin as (k & Hk).
+      assert (L : k < length (o_incs o)) by (rewrite (u_len _ _ HI); apply nth_error_Some; congruence).
+      apply nth_error_Some in L. destruct (nth_error (o_incs o) k) as [oi|] eqn:Ho; [|congruence].
+      destruct (u_hand _ _ HI k hr oi Hk Ho) as (_ & _ & _ & X1). exact X1.
+    - cbn [fst]. eapply QPm_frame; [exact HQ|reflexivity..].
+    - pose proof (QPm_execute_poll o k hs s HI HQ) as X. destruct (execute_poll k hs s). exact X.
+    - pose proof (QPm_drop_handler k s HQ) as X. destruct (drop_handler k s). exact X.
+    - pose proof (QPm_drop_yielded k s HQ) as X. destruct (drop_yielded k s). exact X.
+    - cbn [fst]. unfold drop_channel. destruct (s_dropped s) eqn:ED; [exact HQ|].
+      intros k hr e _ _ _ _. right; left. reflexivity.
+    - cbn [fst]. eapply QPm_frame; [exact HQ|reflexivity..].
+  Qed.
+
+  Lemma QPm_init : forall c (t0 : T), QPm (init c t0).
+  Proof. intros c t0 k hr e Hk. destruct k; discriminate. Qed.
+End Queue.
+
+(* ================================================================== (fused, transport, log) through a poll *)
+(* Any predicate on the stream-half flag, the transport state and the call log that the four
+   logged transport calls preserve is preserved by a Requests poll: nothing else touches them
+   (the flag is set right after the transport answered end-of-stream). *)
+Section TLog.
+  Context {T : Type}.
+  Variable tp : transport T response cmsg.
+  Notation st := (@sstate T).
+  Variable P : bool -> T -> list call -> Prop.
+  Hypothesis Hready : forall f t l, P f t l -> P f (snd (t_ready tp t)) (CReady (fst (t_ready tp t)) :: l).
+  Hypothesis Hflush : forall f t l, P f t l -> P f (snd (t_flush tp t)) (CFlush (fst (t_flush tp t)) :: l).
+  Hypothesis Hsend : forall f t l m, P f t l -> P f (snd (t_send tp t m)) (CSend m (fst (t_send tp t m)) :: l).
+  Hypothesis Hnext : forall f t l, P f t l ->
+    P f (snd (t_next tp t)) (CNext (fst (t_next tp t)) :: l)
+    /\ (fst (t_next tp t) = REof -> P true (snd (t_next tp t)) (CNext (fst (t_next tp t)) :: l)).
+
+  Definition PL (s : st) : Prop := P (s_fused s) (s_t s) (s_log s).
+
+  Lemma PL_frame : forall (s s' : st), PL s -> s_fused s' = s_fused s -> s_t s' = s_t s -> s_log s' = s_log s -> PL s'.
+  Proof. intros s s' H E1 E2 E3. unfold PL in *. rewrite E1, E2, E3. exact H. Qed.
+
+  Lemma PL_do_ready : forall (s : st) r s', PL s -> do_ready tp s = (r, s') -> PL s'.
+  Proof.
+    intros s r s' H E. unfold do_ready in E. pose proof (Hready _ _ _ H) as X.
+    destruct (t_ready tp (s_t s)) as [x t']. injection E as <- <-. exact X.
+  Qed.
+  Lemma PL_do_flush : forall (s : st) r s', PL s -> do_flush tp s = (r, s') -> PL s'.
+  Proof.
+    intros s r s' H E. unfold do_flush in E. pose proof (Hflush _ _ _ H) as X.
+    destruct (t_flush tp (s_t s)) as [x t']. injection E as <- <-. exact X.
+  Qed.
+  Lemma PL_do_send : forall m (s : st) r s', PL s -> do_send tp m s = (r, s') -> PL s'.
+  Proof.
+    intros m s r s' H E. unfold do_send in E. pose proof (Hsend _ _ _ m H) as X.
+    destruct (t_send tp (s_t s) m) as [x t']. injection E as <- <-. exact X.
+  Qed.
+  Lemma PL_do_next : forall (s : st) r s', PL s -> do_next tp s = (r, s') ->
+    PL s' /\ (r = REof -> PL (set_fused s' true)).
+  Proof.
+    intros s r s' H E. unfold do_next in E. pose proof (Hnext _ _ _ H) as X.
+    destruct (t_next tp (s_t s)) as [x t']. injection E as <- <-. exact X.
+  Qed.
+
+  Lemma PL_remove_request : forall id (s : st), PL s -> PL (snd (remove_request id s)).
+  Proof.
+    intros id s H. destruct (remove_request_shape id s) as [(_ & -> & _)|(_ & _ & _ & _ & _ & _ & _ & _ & _ & _ & B9 & _ & _ & _ & B13 & B14)];
+      cbv zeta in *; [exact H|]. eapply PL_frame; eauto.
+  Qed.
+  Lemma PL_cancel_request : forall id (s : st), PL s -> PL (cancel_request id s).
+  Proof.
+    intros id s H. destruct (cancel_request_shape id s) as [(-> & _)|(e0 & _ & _ & _ & _ & _ & _ & _ & _ & _ & B9 & _ & _ & _ & B13 & B14)];
+      cbv zeta in *; [exact H|]. eapply PL_frame; eauto.
+  Qed.
+  Lemma PL_poll_expired : forall (s : st) r s', PL s -> poll_expired s = (r, s') -> PL s'.
+  Proof.
+    intros s r s' H E. destruct (poll_expired_shape _ _ _ E) as (_ & _ & _ & _ & _ & A6 & _ & _ & _ & A10 & A11 & _).
+    eapply PL_frame; eauto.
+  Qed.
+
+  Lemma PL_base : forall f (s : st) r s', PL s -> base_poll_next tp f s = (r, s') -> PL s'.
+  Proof.
+    induction f as [|f IH]; intros s r s' HP H; cbn [base_poll_next] in H; [injection H as _ <-; exact HP|].
+    set (cs := match s_cancels s with
+               | id :: r0 => (RSReady, snd (remove_request id (set_cancels s r0)))
+               | [] => (RSClosed, s) end) in H.
+    assert (Hc : PL (snd cs)).
+    { subst cs. destruct (s_cancels s) as [|id r0]; cbn [snd]; [exact HP|].
+      apply PL_remove_request. eapply PL_frame; [exact HP|reflexivity..]. }
+    destruct cs as [cst s1]. cbn [snd] in Hc.
+    destruct (poll_expired s1) as [est s2] eqn:EE. pose proof (PL_poll_expired _ _ _ Hc EE) as H2.
+    assert (Hfin : forall rst sx, PL sx ->
+              match combine (combine cst est) rst with
+              | RSReady => base_poll_next tp f sx
+              | RSClosed => (PEnd, sx)
+              | RSPending => (PPending, sx)
+              end = (r, s') -> PL s').
+    { intros rst sx Px HH. destruct (combine (combine cst est) rst).
+      - exact (IH _ _ _ Px HH).
+      - injection HH as _ <-. exact Px.
+      - injection HH as _ <-. exact Px. }
+    destruct (s_fused s2).
+    - exact (Hfin RSClosed s2 H2 H).
+    - destruct (do_next tp s2) as [rr s3] eqn:EN. destruct (PL_do_next _ _ _ H2 EN) as (H3 & H3e).
+      destruct rr as [m| | |].
+      + destruct m as [id dl tr body|id tr].
+        * destruct (start_request id dl s3) as [[h s4]|] eqn:ES.
+          -- injection H as _ <-.
+             destruct (start_request_shape _ _ _ _ _ ES) as (_ & _ & _ & _ & _ & _ & _ & _ & _ & _ & B11 & _ & _ & _ & B15 & B16).
+             eapply PL_frame; eauto.
+          -- exact (IH _ _ _ H3 H).
+        * apply (Hfin RSReady (cancel_request id s3)); [|exact H]. apply PL_cancel_request. exact H3.
+      + injection H as _ <-. exact H3.
+      + apply (Hfin RSClosed (set_fused s3 true)); [|exact H]. apply H3e. reflexivity.
+      + exact (Hfin RSPending s3 H3 H).
+  Qed.
+
+  Lemma PL_start_send : forall m (s : st) e s', PL s -> base_start_send tp m s = (e, s') -> PL s'.
+  Proof.
+    intros m s e s' HP H. unfold base_start_send in H.
+    pose proof (PL_remove_request (resp_id m) s HP) as H1.
+    destruct (remove_request (resp_id m) s) as [was s1]. cbn [snd] in H1. destruct was.
+    - destruct (do_send tp m s1) as [r s2] eqn:ES. injection H as _ <-. exact (PL_do_send _ _ _ _ H1 ES).
+    - injection H as _ <-. exact H1.
+  Qed.
+
+  Lemma PL_maxreq : forall f limit (s : st) r s', PL s -> maxreq_poll_next tp f limit s = (r, s') -> PL s'.
+  Proof.
+    induction f as [|f IH]; intros limit s r s' HP H; cbn [maxreq_poll_next] in H; [injection H as _ <-; exact HP|].
+    destruct (limit <=? length (s_inflight s)); [|exact (PL_base _ _ _ _ HP H)].
+    destruct (do_ready tp s) as [x s1] eqn:ER. pose proof (PL_do_ready _ _ _ HP ER) as H1.
+    destruct x; try (injection H as _ <-; exact H1).
+    destruct (base_poll_next tp (S f) s1) as [y s2] eqn:EB. pose proof (PL_base _ _ _ _ H1 EB) as H2.
+    destruct y as [q| | | |]; try (injection H as _ <-; exact H2).
+    destruct (base_start_send tp (mkresp (q_id q) BThrottle) s2) as [e s3] eqn:ESS.
+    pose proof (PL_start_send _ _ _ _ H2 ESS) as H3.
+    destruct e; [injection H as _ <-; exact H3|]. exact (IH _ _ _ _ H3 H).
+  Qed.
+
+  Lemma PL_ensure : forall (s : st) w s', PL s -> ensure_writeable tp s = (w, s') -> PL s'.
+  Proof.
+    intros s w s' HP H. unfold ensure_writeable in H.
+    destruct (do_ready tp s) as [r s1] eqn:E1. pose proof (PL_do_ready _ _ _ HP E1) as H1.
+    destruct r; try (injection H as _ <-; exact H1).
+    destruct (do_flush tp s1) as [f s2] eqn:E2. pose proof (PL_do_flush _ _ _ H1 E2) as H2.
+    destruct f; try (injection H as _ <-; exact H2).
+    destruct (do_ready tp s2) as [r2 s3] eqn:E3. pose proof (PL_do_ready _ _ _ H2 E3) as H3.
+    destruct r2; injection H as _ <-; exact H3.
+  Qed.
+
+  Lemma PL_pump_write : forall rc (s : st) w s', PL s -> pump_write tp rc s = (w, s') -> PL s'.
+  Proof.
+    intros rc s w s' HP H. unfold pump_write, poll_next_response in H.
+    destruct (ensure_writeable tp s) as [x s1] eqn:EW. pose proof (PL_ensure _ _ _ HP EW) as H1.
+    assert (Hfl : forall x0, (let '(f, s2) := do_flush tp s1 in
+              match f with
+              | TErr => (PErr AFlush, s2)
+              | TPending => (PPending, s2)
+              | TOk => match x0 : pres response with
+                       | PEnd => (PEnd, s2)
+                       | _ => if rc && Nat.eqb (length (s_inflight s2)) 0 then (PEnd, s2) else (PPending, s2)
+                       end
+              end) = (w, s') -> PL s').
+    { intros x0 HH. destruct (do_flush tp s1) as [f s2] eqn:EF. pose proof (PL_do_flush _ _ _ H1 EF) as H2.
+      destruct f; [destruct x0; try destruct (rc && _)| |]; injection HH as _ <-; exact H2. }
+    destruct x as [| |a].
+    - destruct (s_respq s1) as [|m q] eqn:EQ; [exact (Hfl PPending H)|].
+      destruct (base_start_send tp m (add_permit (set_respq s1 q))) as [e s2] eqn:ES.
+      assert (Ha : PL (add_permit (set_respq s1 q))).
+      { destruct (add_permit_shape (set_respq s1 q)) as (_ & _ & _ & _ & _ & _ & _ & _ & _ & P10 & _ & P12 & P13).
+        cbv zeta in *. eapply PL_frame; eauto. }
+      pose proof (PL_start_send _ _ _ _ Ha ES) as H2.
+      destruct e; injection H as _ <-; exact H2.
+    - exact (Hfl PPending H).
+    - injection H as _ <-. exact H1.
+  Qed.
+
+  Lemma PL_requests : forall c f (s : st) r s', PL s -> requests_poll_next tp c f s = (r, s') -> PL s'.
+  Proof.
+    intros c f; induction f as [|f IH]; intros s r s' HP H; cbn [requests_poll_next] in H; [injection H as _ <-; exact HP|].
+    destruct (pump_read tp c (S f) s) as [rd s1] eqn:ER.
+    assert (H1 : PL s1).
+    { unfold pump_read in ER. destruct (cfg_limit c); [eapply PL_maxreq|eapply PL_base]; eauto. }
+    destruct rd as [q| |a| |]; try (injection H as _ <-; exact H1).
+    all: match type of H with context [pump_write tp ?b ?sx] =>
+           destruct (pump_write tp b sx) as [wr s2] eqn:EW;
+           pose proof (PL_pump_write _ _ _ _ H1 EW) as H2 end.
+    - destruct wr as [u| |a| |]; injection H as _ <-; exact H2.
+    - destruct wr as [u| |a| |]; try (injection H as _ <-; exact H2). exact (IH _ _ _ H2 H).
+    - destruct wr as [u| |a| |]; try (injection H as _ <-; exact H2). exact (IH _ _ _ H2 H).
+  Qed.
+End TLog.
